@@ -51,6 +51,7 @@ std::vector<std::regex> gRegex;
 struct Cover {
     uint64_t histories = 0, ops = 0, notifies = 0, wildcardNotifies = 0, multiReceiverNotifies = 0, calls = 0, shrinks = 0, removedKeys = 0;
     uint64_t measures = 0, existsProbes = 0, probesAfterShrink = 0, fullShrinks = 0, nontrivialCases = 0, byValueMulti = 0, lazyRemovals = 0;
+    uint64_t specialRuns = 0, longLifeCycles = 0, deepKeyRuns = 0, throwingObserverRuns = 0;
     std::map<std::string, uint64_t> opCount, sigCount, routerCount;
     std::vector<uint64_t> fps;
     std::vector<std::string> samples;
@@ -442,6 +443,121 @@ void runCase(uint64_t seed, int steps, bool structural, const char *rname) {
     if (!gCaseFailed) delete r;
 }
 
+
+// ------------------------------------------------------------------ sizes and situations the random histories do not reach
+// (1) one key lives through more than 2^16 / 2^17 subscriptions while a resident observer stays subscribed;
+// (2) keys and patterns of 255 .. 512 levels (level counts, recursion depth, depth());
+// (3) an observer that throws: the exception reaches the caller of notify() and the router works as before,
+//     in particular shrink still removes dead keys.
+// All results are known exactly.
+template<class Router>
+void runSpecial(rt::Rng rng, const char *rname, bool structural) {
+    Router router;
+    char d[220];
+    auto special = [&](const char *rule, const char *site, const std::string &what) { fail(structural ? "C13" : "C06", rule, site, std::string(d) + ": " + what); };
+    unsigned kind = structural ? (unsigned) rng.range(1, 2) : (unsigned) rng.below(3);
+    if (kind == 0) {
+        static const int64_t sizes[] = {65537, 66000, 70000, 131100, 140000};
+        int64_t n = rng.chance(400) ? (int64_t) rng.range(300, 3000) : sizes[rng.below(5)];
+        snprintf(d, sizeof d, "%s long life: %lld subscribe/unsubscribe cycles at /a/b next to a resident observer", rname, (long long) n);
+        gHist = d;
+        rt::crumb("%s", d);
+        Key key{"a", "b"};
+        int resident = 0, temp = 0;
+        USubscription res = router.template subscribe<>(buildKey(key), [&resident]() { ++resident; });
+        for (int64_t k = 0; k < n && !gCaseFailed; ++k) {
+            USubscription t = router.template subscribe<>(buildKey(key), [&temp]() { ++temp; });
+            bool look = k < 3 || (k & (k + 1)) == 0 || (k >= 65530 && k <= 65540) || (k >= 131066 && k <= 131076) || rng.chance(2);
+            if (look) {
+                resident = temp = 0;
+                size_t ret = router.notify(buildKey(key));
+                if (resident != 1 || temp != 1 || ret != 1) { special("long-life-delivery", "cycle", "at cycle " + std::to_string(k) + " notify(/a/b) returned " + std::to_string(ret) + ", reached the resident " + std::to_string(resident) + " and the newcomer " + std::to_string(temp) + " time(s)"); break; }
+            }
+            t->unsubscribe();
+            if (look || k + 1 == n) {
+                resident = temp = 0;
+                size_t ret = router.notify(buildKey(key));
+                if (resident != 1 || temp != 0 || ret != 1 || !res->isValid()) { special("long-life-delivery", "cycle", "after the newcomer of cycle " + std::to_string(k) + " unsubscribed, notify(/a/b) returned " + std::to_string(ret) + ", reached the resident " + std::to_string(resident) + " time(s) (handle valid: " + std::to_string(res->isValid()) + ")"); break; }
+            }
+        }
+        C.longLifeCycles += (uint64_t) n;
+    } else if (kind == 1) {
+        static const int depths[] = {255, 256, 257, 300, 511, 512};
+        int D = depths[rng.below(6)], P = (D >= 256 && D % 256 >= 2) ? D % 256 : 3;   // P: what D wraps to in 8 bits (or a small depth)
+        snprintf(d, sizeof d, "%s deep keys: observers at %d levels, at %d levels and at one level", rname, D, P);
+        gHist = d;
+        rt::crumb("%s", d);
+        Key deep((size_t) D, "a"), mid((size_t) P, "a"), top{"a"};
+        int cDeep = 0, cMid = 0, cTop = 0;
+        USubscription sDeep = router.template subscribe<>(buildKey(deep), [&cDeep]() { ++cDeep; });
+        USubscription sMid = router.template subscribe<>(buildKey(mid), [&cMid]() { ++cMid; });
+        USubscription sTop = router.template subscribe<>(buildKey(top), [&cTop]() { ++cTop; });
+        auto expectOnly = [&](const RoutingKey &pat, const std::string &name, int eDeep, int eMid, int eTop) {
+            if (gCaseFailed) return;
+            cDeep = cMid = cTop = 0;
+            size_t ret = router.notify(pat);
+            if (cDeep != eDeep || cMid != eMid || cTop != eTop || ret != (size_t) (eDeep + eMid + eTop))
+                special("deep-key-delivery", "notify", "notify(" + name + ") returned " + std::to_string(ret) + " and reached the observers at " + std::to_string(D) + "/" + std::to_string(P) + "/1 levels " +
+                        std::to_string(cDeep) + "/" + std::to_string(cMid) + "/" + std::to_string(cTop) + " time(s), expected " + std::to_string(eDeep) + "/" + std::to_string(eMid) + "/" + std::to_string(eTop));
+        };
+        expectOnly(buildKey(deep), "the " + std::to_string(D) + "-level key", 1, 0, 0);
+        expectOnly(buildKey(mid), "the " + std::to_string(P) + "-level key", 0, 1, 0);
+        expectOnly(buildKey(top), "the one-level key", 0, 0, 1);
+        expectOnly(buildKey(Key{}), "the root key", 0, 0, 0);
+        expectOnly(buildPattern(std::vector<PLevel>((size_t) D, PLevel{true, ".*", 0})), "a wildcard of " + std::to_string(D) + " levels", 1, 0, 0);
+        expectOnly(buildKey(Key((size_t) D + 1, "a")), "a key one level deeper", 0, 0, 0);
+        if (!gCaseFailed && router.depth() != (size_t) D + 1) special("wrong-depth", "depth", "depth() = " + std::to_string(router.depth()) + ", expected " + std::to_string(D + 1));
+        if (!gCaseFailed && (!router.exists(buildKey(deep)) || router.exists(buildKey(Key((size_t) D + 1, "a"))) || !router.exists(buildKey(Key((size_t) D - 1, "a")))))
+            special("wrong-exists", "exists", "exists() is wrong around the deepest key");
+        if (!gCaseFailed) {
+            sDeep->unsubscribe();
+            router.shrink(buildPattern(std::vector<PLevel>((size_t) D, PLevel{true, ".*", 0})));
+            size_t want = (size_t) P + 1;
+            if (router.depth() != want) special("wrong-depth", "shrink", "after the deepest observer left and a full-depth wildcard shrink, depth() = " + std::to_string(router.depth()) + ", expected " + std::to_string(want));
+            else if (router.exists(buildKey(deep)) || !router.exists(buildKey(mid))) special("wrong-exists", "shrink", "after that shrink exists() is wrong for the removed deep key or the surviving one");
+            expectOnly(buildKey(mid), "the " + std::to_string(P) + "-level key after the shrink", 0, 1, 0);
+        }
+        ++C.deepKeyRuns;
+    } else {
+        snprintf(d, sizeof d, "%s throwing observer at /t, then unsubscribe at /a/b and a full-depth wildcard shrink", rname);
+        gHist = d;
+        rt::crumb("%s", d);
+        struct Boom {};
+        bool armed = false;
+        int cT = 0, cA = 0, cN = 0;
+        USubscription sN = router.template subscribe<>(buildKey(Key{"t"}), [&cN]() { ++cN; });
+        USubscription sT = router.template subscribe<>(buildKey(Key{"t"}), [&]() { ++cT; if (armed) throw Boom{}; });
+        USubscription sA = router.template subscribe<>(buildKey(Key{"a", "b"}), [&cA]() { ++cA; });
+        int rounds = (int) rng.range(1, 3);
+        for (int k = 0; k < rounds && !gCaseFailed; ++k) {
+            armed = true;
+            bool caught = false;
+            try { router.notify(buildKey(Key{"t"})); } catch (const Boom &) { caught = true; }
+            armed = false;
+            if (!caught) special("exception-lost", "notify", "the observer threw but notify() returned normally");
+        }
+        cT = cA = cN = 0;
+        size_t ret = gCaseFailed ? 0 : router.notify(buildPattern(std::vector<PLevel>(1, PLevel{true, ".*", 0})));
+        if (!gCaseFailed && (cT != 1 || cN != 1 || ret != 1)) special("delivery-after-exception", "notify", "after the exception notify(/{.*}) returned " + std::to_string(ret) + " and reached the two observers at /t " + std::to_string(cN) + "+" + std::to_string(cT) + " time(s)");
+        if (!gCaseFailed) {
+            sA->unsubscribe();
+            router.shrink(buildPattern(std::vector<PLevel>(2, PLevel{true, ".*", 0})));
+            if (router.exists(buildKey(Key{"a", "b"})) || router.exists(buildKey(Key{"a"})) || !router.exists(buildKey(Key{"t"})) || router.depth() != 2)
+                special("dead-key-survives-shrink", "shrink", "after an observer threw earlier, a full-depth wildcard shrink left the dead keys /a/b or /a behind (depth() = " + std::to_string(router.depth()) + ")");
+        }
+        ++C.throwingObserverRuns;
+    }
+    ++C.specialRuns;
+    ++C.histories;
+    ++C.routerCount[rname];
+    if (!gCaseFailed) {
+        ++C.nontrivialCases;
+        rt::Hash h;
+        for (char c : gHist) h.add((uint64_t) c);
+        C.fps.push_back(h.get());
+    }
+}
+
 void buildUniverse() {
     std::vector<Key> level = {Key{}};
     for (int d = 1; d <= kMaxDepth; ++d) {
@@ -466,6 +582,11 @@ int main(int argc, char **argv) {
         rt::Rng rng(rt::mix(rt::st().seed, c));
         gHist.clear();
         gCaseFailed = false;
+        if (rng.chance((unsigned) rt::optInt("special", 4))) {
+            if (rng.chance(500)) runSpecial<SubjectRouter>(rng, "SubjectRouter", structural);
+            else runSpecial<ConcurrentSubjectRouter>(rng, "ConcurrentSubjectRouter", structural);
+            continue;
+        }
         int steps = (int) (rng.chance(250) ? rng.range(2, 12) : rng.range(10, maxSteps));
         uint64_t s = rng.next();
         if (rng.chance(500)) runCase<SubjectRouter>(s, steps, structural, "SubjectRouter");
@@ -476,7 +597,7 @@ int main(int argc, char **argv) {
                    .kv("wildcardNotifies", C.wildcardNotifies).kv("multiReceiverNotifies", C.multiReceiverNotifies).kv("byValueMultiReceiver", C.byValueMulti)
                    .kv("calls", C.calls).kv("shrinks", C.shrinks).kv("removedKeys", C.removedKeys).kv("measures", C.measures)
                    .kv("existsProbes", C.existsProbes).kv("probesAfterShrink", C.probesAfterShrink).kv("fullShrinks", C.fullShrinks)
-                   .kv("lazyRemovals", C.lazyRemovals).kv("nontrivialCases", C.nontrivialCases).kv("universeKeys", (uint64_t) gUniverse.size())
+                   .kv("lazyRemovals", C.lazyRemovals).kv("specialRuns", C.specialRuns).kv("longLifeCycles", C.longLifeCycles).kv("deepKeyRuns", C.deepKeyRuns).kv("throwingObserverRuns", C.throwingObserverRuns).kv("nontrivialCases", C.nontrivialCases).kv("universeKeys", (uint64_t) gUniverse.size())
                    .raw("opCount", rt::jsonCounts(C.opCount)).raw("signatures", rt::jsonCounts(C.sigCount)).raw("routers", rt::jsonCounts(C.routerCount))
                    .raw("samples", rt::jsonArray(C.samples, false)));
     return 0;
